@@ -107,6 +107,13 @@ def Statement_cyclic_reads_raise : Prop :=
     (step h s .len).2 = .err .valueError ∧ (step h s .iter).2 = .err .valueError ∧
       ∀ x, x ∉ (items s.g h).1 → (step h s (.contains x)).2 = .err .valueError
 
+/-- Statements that are not rdf:first/rdf:rest triples are never added by a Collection operation,
+    and one is removed only together with a discarded cell (its subject is not the head and carried
+    an rdf:first): whatever else the graph says, about the head or about anything else, is untouched. -/
+def Statement_coll_frame : Prop :=
+  ∀ (s : St) (h : Term) (xs : List Term) (op : Op), WF s h → asList s.g h = .ok xs →
+    Frame s.g (step h s op).1.g h
+
 /-! ### Glue between the code's index normalisation and Python's rule -/
 
 theorem pyIndex_some {n : Nat} {i : Int} {k : Nat} (h : pyIndex n i = some k) :
@@ -148,32 +155,32 @@ theorem asList_of_inv {s : St} {h : Term} {ps : List Cell} {xs : List Term} (inv
 
 /-! ### Proofs -/
 
-theorem coll_refines_partial :
+theorem step_refines_frame :
     ∀ (s : St) (h : Term) (xs : List Term) (op : Op), WF s h → asList s.g h = .ok xs →
       isSetAtLen xs.length op = false →
       ((step h s op).2).agrees (specStep xs op).2 ∧ WF (step h s op).1 h ∧
-        asList (step h s op).1.g h = .ok (specStep xs op).1 := by
+        asList (step h s op).1.g h = .ok (specStep xs op).1 ∧ Frame s.g (step h s op).1.g h := by
   intro s h xs op ⟨ps, inv⟩ ha hok
   have hxs := asList_of_inv inv ha
   subst hxs
   simp only [List.length_map] at hok
   cases op with
   | append x =>
-    obtain ⟨s', ps', h1, h2, inv'⟩ := inv.append x
+    obtain ⟨s', ps', h1, h2, hf, inv'⟩ := inv.append x
     simp only [step, h1, stOf, specStep]
-    exact ⟨Or.inl rfl, ⟨ps', inv'⟩, by rw [inv'.chain.asList, h2]⟩
+    exact ⟨Or.inl rfl, ⟨ps', inv'⟩, by rw [inv'.chain.asList, h2], hf⟩
   | extend ys =>
-    obtain ⟨s', ps', h1, h2, inv'⟩ := inv.iadd ys
+    obtain ⟨s', ps', h1, h2, hf, inv'⟩ := inv.iadd ys
     simp only [step, h1, stOf, specStep]
-    exact ⟨Or.inl rfl, ⟨ps', inv'⟩, by rw [inv'.chain.asList, h2]⟩
+    exact ⟨Or.inl rfl, ⟨ps', inv'⟩, by rw [inv'.chain.asList, h2], hf⟩
   | setItem i x =>
     simp only [step, specStep, List.length_map]
     cases hp : pyIndex ps.length i with
     | some k =>
       obtain ⟨hk, hlt⟩ := pyIndex_some hp
-      obtain ⟨g', ps', h1, h2, inv'⟩ := inv.setItem_ok x hk hlt
+      obtain ⟨g', ps', h1, h2, hf, inv'⟩ := inv.setItem_ok x hk hlt
       simp only [h1, gOf]
-      exact ⟨Or.inl rfl, ⟨ps', inv'⟩, by rw [inv'.chain.asList, h2]⟩
+      exact ⟨Or.inl rfl, ⟨ps', inv'⟩, by rw [inv'.chain.asList, h2], hf⟩
     | none =>
       have hne : i ≠ (ps.length : Int) := by
         simpa [isSetAtLen] using hok
@@ -184,34 +191,35 @@ theorem coll_refines_partial :
         · exact h
         · exact absurd (this.2 (by omega)) hne)
       simp only [h1, gOf]
-      exact ⟨Or.inl rfl, ⟨ps, inv⟩, ha⟩
+      exact ⟨Or.inl rfl, ⟨ps, inv⟩, ha, frame_refl _ _⟩
   | delItem i =>
     simp only [step, specStep, List.length_map]
     cases hp : pyIndex ps.length i with
     | some k =>
       obtain ⟨hk, hlt⟩ := pyIndex_some hp
       have hres : ∃ g' ps', delItem s.g h i = .ok g' ∧ ps'.map Prod.snd = (ps.map Prod.snd).eraseIdx k ∧
-          Inv ⟨g', s.fresh⟩ h ps' := by
+          Frame s.g g' h ∧ Inv ⟨g', s.fresh⟩ h ps' := by
         cases k with
         | zero => exact inv.delItem_head hk hlt
         | succ j => exact inv.delItem_inner hk hlt
-      obtain ⟨g', ps', h1, h2, inv'⟩ := hres
+      obtain ⟨g', ps', h1, h2, hf, inv'⟩ := hres
       simp only [h1, gOf]
-      exact ⟨Or.inl rfl, ⟨ps', inv'⟩, by rw [inv'.chain.asList, h2]⟩
+      exact ⟨Or.inl rfl, ⟨ps', inv'⟩, by rw [inv'.chain.asList, h2], hf⟩
     | none =>
       have h1 := inv.delItem_err (key := i) (fun k hk => (pyIndex_none hp k hk).1)
       simp only [h1, gOf]
-      exact ⟨Or.inl rfl, ⟨ps, inv⟩, ha⟩
+      exact ⟨Or.inl rfl, ⟨ps, inv⟩, ha, frame_refl _ _⟩
   | clear =>
-    obtain ⟨g', h1, inv', _⟩ := inv.clear
+    obtain ⟨g', h1, inv', h2⟩ := inv.clear
     simp only [step, h1, gOf, specStep]
-    exact ⟨Or.inl rfl, ⟨[], inv'⟩, by rw [inv'.chain.asList]; rfl⟩
+    exact ⟨Or.inl rfl, ⟨[], inv'⟩, by rw [inv'.chain.asList]; rfl,
+      frame_of_iff (fun t hn => by rw [h2]; exact ⟨fun hm => hm.1, fun hm => ⟨hm, hn⟩⟩)⟩
   | len =>
     simp only [step, specStep, inv.chain.len, outOf, List.length_map]
-    exact ⟨Or.inl rfl, ⟨ps, inv⟩, ha⟩
+    exact ⟨Or.inl rfl, ⟨ps, inv⟩, ha, frame_refl _ _⟩
   | iter =>
     simp only [step, specStep, inv.chain.iter, outOf]
-    exact ⟨Or.inl rfl, ⟨ps, inv⟩, ha⟩
+    exact ⟨Or.inl rfl, ⟨ps, inv⟩, ha, frame_refl _ _⟩
   | getItem i =>
     simp only [step, specStep, inv.chain.getItem, List.length_map]
     cases hp : pyIndex ps.length i with
@@ -219,10 +227,10 @@ theorem coll_refines_partial :
       obtain ⟨hk, hlt⟩ := pyIndex_some hp
       simp only [hk, List.getElem?_map]
       cases hq : ps[k]? with
-      | none => exact ⟨Or.inl rfl, ⟨ps, inv⟩, ha⟩
-      | some q => exact ⟨Or.inl rfl, ⟨ps, inv⟩, ha⟩
+      | none => exact ⟨Or.inl rfl, ⟨ps, inv⟩, ha, frame_refl _ _⟩
+      | some q => exact ⟨Or.inl rfl, ⟨ps, inv⟩, ha, frame_refl _ _⟩
     | none =>
-      refine ⟨?_, ⟨ps, inv⟩, ha⟩
+      refine ⟨?_, ⟨ps, inv⟩, ha, frame_refl _ _⟩
       cases hn : normK ps.length i with
       | none => exact Or.inl rfl
       | some k =>
@@ -231,7 +239,7 @@ theorem coll_refines_partial :
         exact Or.inl rfl
   | index x =>
     simp only [step, specStep, inv.chain.index inv.nodup]
-    refine ⟨?_, ⟨ps, inv⟩, ha⟩
+    refine ⟨?_, ⟨ps, inv⟩, ha, frame_refl _ _⟩
     by_cases hx : x ∈ ps.map Prod.snd
     · simp only [hx, if_true, outOf]
       exact Or.inl rfl
@@ -241,7 +249,39 @@ theorem coll_refines_partial :
       · exact Or.inl (by simp [hps])
   | contains x =>
     simp only [step, specStep, inv.chain.contains, outOf]
-    exact ⟨Or.inl rfl, ⟨ps, inv⟩, ha⟩
+    exact ⟨Or.inl rfl, ⟨ps, inv⟩, ha, frame_refl _ _⟩
+
+theorem coll_refines_partial :
+    ∀ (s : St) (h : Term) (xs : List Term) (op : Op), WF s h → asList s.g h = .ok xs →
+      isSetAtLen xs.length op = false →
+      ((step h s op).2).agrees (specStep xs op).2 ∧ WF (step h s op).1 h ∧
+        asList (step h s op).1.g h = .ok (specStep xs op).1 := by
+  intro s h xs op wf ha hok
+  obtain ⟨h1, h2, h3, _⟩ := step_refines_frame s h xs op wf ha hok
+  exact ⟨h1, h2, h3⟩
+
+theorem coll_frame : Statement_coll_frame := by
+  intro s h xs op wf ha
+  cases op with
+  | setItem i x =>
+    -- also for the unrepaired `c[len(c)] = x`: whatever cell is found, only its rdf:first is replaced
+    simp only [step]
+    unfold setItem
+    cases hn : normIdx s.g h i with
+    | error e => exact frame_refl _ _
+    | ok k =>
+      cases hc : getContainer s.g (some h) k with
+      | none => simp only [hc, gOf]; exact frame_refl _ _
+      | some c => simp only [hc, gOf]; exact frame_of_iff (fun t hn => nonlist_gset hn (Or.inl rfl))
+  | append x => exact (step_refines_frame s h xs _ wf ha rfl).2.2.2
+  | extend ys => exact (step_refines_frame s h xs _ wf ha rfl).2.2.2
+  | delItem i => exact (step_refines_frame s h xs _ wf ha rfl).2.2.2
+  | clear => exact (step_refines_frame s h xs _ wf ha rfl).2.2.2
+  | len => exact (step_refines_frame s h xs _ wf ha rfl).2.2.2
+  | iter => exact (step_refines_frame s h xs _ wf ha rfl).2.2.2
+  | getItem i => exact (step_refines_frame s h xs _ wf ha rfl).2.2.2
+  | index x => exact (step_refines_frame s h xs _ wf ha rfl).2.2.2
+  | contains x => exact (step_refines_frame s h xs _ wf ha rfl).2.2.2
 
 theorem history_refines_partial :
     ∀ (ops : List Op) (s : St) (h : Term) (xs : List Term), WF s h → asList s.g h = .ok xs →
@@ -321,7 +361,7 @@ theorem ctor_refines :
   cases xs with
   | nil => exact ⟨s, rfl, ⟨ps, inv⟩, by simpa using ha⟩
   | cons x xs =>
-    obtain ⟨s', ps', h1, h2, inv'⟩ := inv.iadd (x :: xs)
+    obtain ⟨s', ps', h1, h2, _, inv'⟩ := inv.iadd (x :: xs)
     exact ⟨s', h1, ⟨ps', inv'⟩, by rw [inv'.chain.asList, h2]⟩
 
 /-! ### The pinned `__setitem__` falsifies the full statements (known finding C19-K1) -/
